@@ -80,6 +80,8 @@ def ev(e, env):
         return env.get(e[-1])
     if k == "cmpxchg":
         return env.get(e[2])
+    if k == "phi":
+        return env.get(("phi", e[1]))
     if k == "bin" and e[1] == "xor" and e[3] == ("c", -1):
         v = ev(e[2], env)
         if v in (("c", 0), ("c", 1)):
